@@ -34,6 +34,12 @@ def obligations(tier, seed=0):
     for s, t in [(a, b) for a in same[:8] for b in same[:8]]:
         for fn in ('<', '<=', '>', '>=', '==', '!=', 'in'):
             add(fn=fn, s=s, t=t, entry='op')
+    # an interval compared with itself (same object): only a point interval gives a definite answer
+    for s in same + other:
+        for fn in ('mpi_lt', 'mpi_le', 'mpi_gt', 'mpi_ge'):
+            add(fn=fn, s=s, t=s, alias=True)
+        for fn in ('<', '<=', '>', '>=', '==', '!=', 'in'):
+            add(fn=fn, s=s, t=s, alias=True, entry='op')
     # an interval against a plain Python int whose mantissa is longer than iv.prec (the number denotes itself exactly)
     for s in ([P(3, 3), P(3, 3)], [P(3, 2), P(3, 3)], [N(3, 3), P(3, 3)], [Z, P(3, 3)], [N(3, 3), N(3, 2)]):
         for nbc in (6, 7):
